@@ -12,6 +12,7 @@ from vp import harness
 from vp.stubs import codecs_model, linejson, shortread, streamcodec
 
 PROP = 'C19'
+XNAME = '/var/tmp/vp-c19-x.json'      # never created on a tree that honours open_obj (a change that ignores open_obj writes a real file there, not into /verif)
 META = dict(
     explanation='The real glue code of rxsci.container.json (dump, load, dump_to_file, load_from_file and the pipelines they compose: dump -> encode -> compress -> file.write; file.read -> decompress -> decode -> line.unframe -> load) '
                 'runs over contract stubs of everything implemented in C: LineJSON for the serializer (dumps = injective newline-free text, bytes-like under the orjson flag; loads its inverse), the incremental codec models of C17, '
@@ -87,7 +88,7 @@ def file_rt(p):
                 def wopen(name, mode, encoding=None):
                     opened.append((name, mode))
                     return wb
-                target, kw = 'x.json', dict(open_obj=wopen)
+                target, kw = XNAME, dict(open_obj=wopen)
             else:
                 target, kw = wb, {}
             # at the moment completion is signalled the file must be complete: a consumer may read it back from the completion notification
@@ -98,11 +99,11 @@ def file_rt(p):
                 return fail(stage='dump_to_file', items=items, done=done)
             if done[0][2] != len(wb.parts):
                 return fail(stage='dump_to_file', problem='data written after completion was signalled', done=done, parts=len(wb.parts))
-            if p.get('open_obj') and (opened != [('x.json', 'wb')] or not wb.closed or not done[0][1]):
+            if p.get('open_obj') and (opened != [(XNAME, 'wb')] or not wb.closed or not done[0][1]):
                 return fail(stage='dump_to_file', problem='open_obj protocol: the file opened through open_obj must be closed when completion is signalled', opened=opened, closed_at_completion=done[0][1], closed=wb.closed)
             f = shortread.ShortReadFile(data, [c1, c1 + 1])     # ...c1 | one byte | rest
             if p.get('open_obj'):
-                source, kw2 = 'x.json', dict(open_obj=lambda name, mode, encoding=None: f)
+                source, kw2 = XNAME, dict(open_obj=lambda name, mode, encoding=None: f)
             else:
                 source, kw2 = f, {}
             got = []
